@@ -85,15 +85,16 @@ def intBits (f : Nat → Nat → Nat) (a b : V) : V :=
 def binop (op : BinOp) (a b : V) : V :=
   match op with
   | .land =>
-    (match a with
-     | .bool false => .bool false
-     | .bool true => (match b with | .bool y => .bool y | _ => .err "&&")
-     | _ => .err "&&")
+    -- `a && b`: `b` is not evaluated (so may be an error value) when `a` is false
+    (match a, b with
+     | .bool x, .bool y => .bool (x && y)
+     | .bool false, _ => .bool false
+     | _, _ => .err "&&")
   | .lor =>
-    (match a with
-     | .bool true => .bool true
-     | .bool false => (match b with | .bool y => .bool y | _ => .err "||")
-     | _ => .err "||")
+    (match a, b with
+     | .bool x, .bool y => .bool (x || y)
+     | .bool true, _ => .bool true
+     | _, _ => .err "||")
   | .eq => (match vEq a b with | some r => .bool r | none => .err "==")
   | .ne => (match vEq a b with | some r => .bool (!r) | none => .err "!=")
   | .lt => intCmp (fun x y => decide (x < y)) a b
@@ -267,6 +268,23 @@ inductive R where
   | cont (st : St)
   | err (why : String)
 
+/-- Sequencing: continue with `f` after a statement that completed normally. -/
+def R.andThen (r : R) (f : St → R) : R :=
+  match r with
+  | .norm st => f st
+  | r => r
+
+/-- Two-way branch on a Go `bool`. -/
+def branch (v : V) (a b : Unit → R) : R :=
+  match v with
+  | .bool x => if x = true then a () else b ()
+  | .err e => .err e
+  | _ => .err "condition is not a bool"
+
+def V.isTrue : V → Bool
+  | .bool x => x
+  | _ => false
+
 def lhsNames : Es → Option (List String)
   | .nil => some []
   | .cons (.var x) t => (lhsNames t).map (x :: ·)
@@ -354,7 +372,7 @@ def loop (f : St → V → Nat → R) : List V → Nat → St → R
 
 def labelHit (c : Ctx) (env : Env) (tv : V) : Es → Bool
   | .nil => false
-  | .cons l t => (match binop .eq (evalE c env l) tv with | .bool true => true | _ => false) || labelHit c env tv t
+  | .cons l t => (binop .eq (evalE c env l) tv).isTrue || labelHit c env tv t
 
 def tyHit (ty : String) : Es → Bool
   | .nil => false
@@ -380,42 +398,23 @@ mutual
            | none => assignVals tok names (evalEs c st.env rhs) st)
         | _ => assignVals tok names (evalEs c st.env rhs) st
     | .ifS init cond thn els, st =>
-      match execSs c init st with
-      | .norm st1 =>
-        (match evalE c st1.env cond with
-         | .bool true => execSs c thn st1
-         | .bool false => execSs c els st1
-         | _ => .err "if condition")
-      | .err e => .err e
-      | _ => .err "if init"
+      (execSs c init st).andThen fun st1 => branch (evalE c st1.env cond) (fun _ => execSs c thn st1) (fun _ => execSs c els st1)
     | .ret vals, st =>
       match evalEs c st.env vals with
       | [] => .ret st .unit
       | [v] => (match v with | .err e => .err e | _ => .ret st v)
       | vs => if hasErr vs then .err "return: error value" else .ret st (.tup vs)
     | .switchS init tag cases, st =>
-      match execSs c init st with
-      | .norm st1 =>
+      (execSs c init st).andThen fun st1 =>
         let tv := match tag with | .nilv => V.bool true | _ => evalE c st1.env tag
-        (match tv with
-         | .err e => .err e
-         | _ =>
-           match execCs c tv st1 cases with
-           | some r => afterSwitch r
-           | none => match execDefault c st1 cases with
-             | some r => afterSwitch r
-             | none => .norm st1)
-      | .err e => .err e
-      | _ => .err "switch init"
+        match tv with
+        | .err e => .err e
+        | _ => afterSwitch (execCs c tv st1 (fun _ => execDefault c st1 cases) cases)
     | .typeSwitch bnd x cases, st =>
       match evalE c st.env x with
       | .tag ty inner =>
         let st1 := { st with env := bind bnd inner st.env }
-        (match execTy c ty st1 cases with
-         | some r => afterSwitch r
-         | none => match execDefault c st1 cases with
-           | some r => afterSwitch r
-           | none => .norm st1)
+        afterSwitch (execTy c ty st1 (fun _ => execDefault c st1 cases) cases)
       | _ => .err "type switch subject"
     | .forRange k v x body, st =>
       match rangeItems c st.env x with
@@ -439,24 +438,50 @@ mutual
     | .unknown _, _ => .err "unknown statement"
   def execSs (c : Ctx) : Ss → St → R
     | .nil, st => .norm st
-    | .cons h t, st =>
-      match execS c h st with
-      | .norm st' => execSs c t st'
-      | r => r
-  /-- first non-default arm with a matching label -/
-  def execCs (c : Ctx) (tv : V) (st : St) : Cs → Option R
-    | .nil => none
+    | .cons h t, st => (execS c h st).andThen fun st' => execSs c t st'
+  /-- the first non-default arm with a matching label, else `dflt` -/
+  def execCs (c : Ctx) (tv : V) (st : St) (dflt : Unit → R) : Cs → R
+    | .nil => dflt ()
     | .cons labels body t =>
-      if labelHit c st.env tv labels then some (execSs c body st) else execCs c tv st t
-  def execTy (c : Ctx) (ty : String) (st : St) : Cs → Option R
-    | .nil => none
+      if labelHit c st.env tv labels = true then execSs c body st else execCs c tv st dflt t
+  def execTy (c : Ctx) (ty : String) (st : St) (dflt : Unit → R) : Cs → R
+    | .nil => dflt ()
     | .cons labels body t =>
-      if tyHit ty labels then some (execSs c body st) else execTy c ty st t
-  def execDefault (c : Ctx) (st : St) : Cs → Option R
-    | .nil => none
-    | .cons .nil body _ => some (execSs c body st)
+      if tyHit ty labels = true then execSs c body st else execTy c ty st dflt t
+  /-- the `default` arm (falling out of the switch if there is none) -/
+  def execDefault (c : Ctx) (st : St) : Cs → R
+    | .nil => .norm st
+    | .cons .nil body _ => execSs c body st
     | .cons (.cons _ _) _ t => execDefault c st t
 end
+
+/-! Observers of a finished run -/
+
+/-- the function returned a `bool` -/
+def R.retBool : R → Option Bool
+  | .ret _ (.bool b) => some b
+  | _ => none
+
+/-- the function returned a `string` -/
+def R.retStr : R → Option Str
+  | .ret _ (.str s) => some s
+  | _ => none
+
+/-- (bytes written to the pty, returned string) -/
+def R.outRetStr : R → Option (Str × Str)
+  | .ret st (.str s) => some (st.out, s)
+  | _ => none
+
+/-- bytes written to the pty by a function without result (returning or falling off its end) -/
+def R.outOnly : R → Option Str
+  | .ret st .unit => some st.out
+  | .norm st => some st.out
+  | _ => none
+
+/-- the environment at the `return` -/
+def R.retEnv : R → Option Env
+  | .ret st _ => some st.env
+  | _ => none
 
 /-- Run a function body: `(returned value, bytes written to the pty, final environment)`. A body
     that falls off its end returns `unit`. -/
